@@ -3,7 +3,7 @@ from __future__ import annotations
 
 import ast
 
-from ..core import INCONCLUSIVE, OK, VIOLATION, Ctx, canon, is_self_attr, local_defs
+from ..core import is_self_attr, INCONCLUSIVE, OK, VIOLATION, Ctx, canon, is_self_attr, local_defs
 from ..model import AnalysisError, body_walk, norm
 from . import c04, c11, c13
 
@@ -44,8 +44,33 @@ def r12_2(ctx: Ctx):
         if o.construct in ("sea-selection", "sea-run", "sea-pipeline-loop", "DE:greedy", "SHADE:greedy"):
             o.rule = "R12.2"
             obs.append(o)
-    from . import c07
+    from . import c06, c07
 
+    # every metaepoch is recorded exactly once (a generation list registered twice shows the same generations again,
+    # so the best / k-th best "gets worse" from the last recorded generation to the first of the duplicate)
+    for o in c06.r06_3(ctx):
+        if o.construct.endswith("run_metaepoch appends") and any(k in o.subject for k in ("EADeme", "DEDeme", "SHADEDeme")):
+            o.rule = "R12.2"
+            obs.append(o)
+    # sampler demes draw exactly pop_size points
+    for cname in ("LHSDeme", "SobolDeme"):
+        ci = ctx.prog.cls_opt(cname)
+        if ci is None:
+            continue
+        for f in ctx.prog.functions_in(ci):
+            sn = f.self_name() or "self"
+            fdefs = local_defs(f)
+            for c in body_walk(f.node):
+                if isinstance(c, ast.Call) and isinstance(c.func, ast.Attribute) and c.func.attr == "random" and is_self_attr(c.func.value, None, sn) and c.func.value.attr in ("sampler", "_sampler"):
+                    a = c.args[0] if c.args else next((k.value for k in c.keywords if k.arg == "n"), None)
+                    at = canon(a, fdefs) if a is not None else "1"
+                    if at in (f"{sn}._pop_size", f"{sn}.pop_size"):
+                        st = OK
+                    elif f"{sn}._pop_size" in at or a is None or isinstance(a, ast.Constant):
+                        st = VIOLATION
+                    else:
+                        st = INCONCLUSIVE
+                    obs.append(ctx.ob("R12.2", f, c, status=st, detail=f"{cname}: draws pop_size points per generation" if st == OK else f"{cname}: draws `{at}` points instead of the configured population size", construct=f"{cname}:sample-size"))
     for o in c07.r07_8(ctx):
         if "size" in o.construct or "seed-appended" in o.construct:
             o.rule = "R12.2"
